@@ -5,7 +5,7 @@ cd "$(dirname "$0")"
 exec 9>.build.lock
 flock 9
 cd coq
-ls Base/*.v Model/*.v Spec/*.v Proofs/*.v Props/*.v Extract/DispatchAR.v Extract/DispatchO1.v Extract/DispatchFF.v Extract/DispatchID.v Extract/DispatchCS.v Extract/DispatchJW.v Extract/DispatchKP.v Extract/DispatchJE.v Extract/Dispatch.v Extract/Extraction.v 2>/dev/null \
+ls Base/*.v Model/*.v Spec/*.v Proofs/*.v Props/*.v Extract/DispatchAR.v Extract/DispatchO1.v Extract/DispatchFF.v Extract/DispatchID.v Extract/DispatchCS.v Extract/DispatchJW.v Extract/DispatchKP.v Extract/DispatchJE.v Extract/DispatchRB.v Extract/Dispatch.v Extract/Extraction.v 2>/dev/null \
   | sort > .files.new
 { echo "-Q . Authlib"; cat .files.new; } > _CoqProject.new
 if ! cmp -s _CoqProject.new _CoqProject || [ ! -f Makefile ]; then
